@@ -5,8 +5,10 @@ One case = one generated EXPRESS schema:
   -> python3 -m py_compile <schema>.py
   -> subprocess: import <schema> with PYTHONPATH=<repo>/src/exp2python/python (+ the scratch dir), vf/c18_dump.py prints JSON.
 Oracle (property statement): exit 0; exactly one <schema>.py; compiles; imports against the bundled runtime package;
-entity classes == entities; direct bases == supertypes in declaration order; constructor parameters == inherited-then-own
-explicit attributes in Part 21 order (names modulo the generator's documented escaping: `inherited<N>__` prefix on inherited
+entity classes == entities; direct bases == supertypes in declaration order (any order of the declared supertypes where Python
+cannot take the declared one: a supertype named before its own subtype); the entity classes of each __mro__ == the declared
+ancestors; constructor parameters == inherited-then-own
+explicit attributes in Part 21 order; an instance built from one value per such attribute reads every value back under its attribute (names modulo the generator's documented escaping: `inherited<N>__` prefix on inherited
 parameters, `_` suffix on identifiers that are Python keywords); one definition per defined type exposing the declared
 underlying type, enumeration items in declared order, select members as a set.
 """
@@ -62,6 +64,92 @@ def entity_shape(s, n):
 def depth(s, n):
     sup = s.entity(n).supers
     return 0 if not sup else 1 + max(depth(s, x) for x in sup)
+
+
+def _c3_merge(seqs):
+    res = []
+    seqs = [list(x) for x in seqs if x]
+    while seqs:
+        for q in seqs:
+            h = q[0]
+            if not any(h in t[1:] for t in seqs):
+                break
+        else:
+            return None
+        res.append(h)
+        seqs = [[x for x in t if x != h] for t in seqs]
+        seqs = [t for t in seqs if t]
+    return res
+
+
+def subtype_first(s, supers):
+    """The declared list with every entity moved (as little as possible) in front of its own ancestors."""
+    out = []
+    for x in supers:
+        at = len(out)
+        for i, y in enumerate(out):
+            if y in s.ancestors(x):
+                at = i
+                break
+        out.insert(at, x)
+    return out
+
+
+def linearisations(s):
+    """-> {entity: (how, mro | None)}: how Python can linearise the class of each entity.
+    'declared'       with its supertypes listed in declaration order (what the property asks for);
+    'subtype first'  not as declared (a supertype is named before its own subtype), but after moving subtypes in front of their ancestors;
+    'contradiction'  in neither order: the declared order of two supertypes contradicts the supertype list of one of the others."""
+    memo = {}
+
+    def lin(n):
+        if n in memo:
+            return memo[n]
+        sup = s.entity(n).supers
+        ms = [lin(x)[1] for x in sup]
+        if any(m is None for m in ms):
+            memo[n] = ('contradiction', None)
+            return memo[n]
+        r = _c3_merge(ms + [list(sup)])
+        if r is not None:
+            memo[n] = ('declared', [n] + r)
+            return memo[n]
+        r = _c3_merge(ms + [subtype_first(s, sup)])
+        memo[n] = ('subtype first', [n] + r) if r is not None else ('contradiction', None)
+        return memo[n]
+    return {e.name: lin(e.name) for e in s.entities}
+
+
+LIN_SHAPE = {'subtype first': 'several supertypes, one declared before its own subtype',
+             'contradiction': 'several supertypes, two declared in the opposite order of the supertype list of another'}
+
+
+def sorted_supers_above(s, n):
+    """Nearest entity at or above n whose supertype list names a shallower supertype first -> its order shape | None."""
+    for x in [n] + s.ancestors(n)[::-1]:
+        if order_shape(s, x).endswith('shallower declared first'):
+            return order_shape(s, x)
+    return None
+
+
+VALUE = {'INTEGER': lambda i: 100 + i, 'REAL': lambda i: i + 0.5, 'NUMBER': lambda i: i + 0.25, 'STRING': lambda i: 'v%d' % i,
+         'BOOLEAN': lambda i: i % 2 == 0}
+
+
+def construct_spec(s):
+    """{class name: [one value per inherited-then-own explicit attribute, Part 21 order]} for every non-abstract entity whose explicit
+    attributes all have a simple type (and none is redeclared as DERIVEd: the constructor may or may not list those)."""
+    spec = {}
+    for e in s.entities:
+        if e.abstract:
+            continue
+        full, short = expected_params(s, e.name)
+        if full != short:
+            continue
+        al = s.all_attrs(e.name)
+        if all(a.type.kind in VALUE for _o, a, _d in al):
+            spec[E(e.name)] = [VALUE[a.type.kind](i) for i, (_o, a, _d) in enumerate(al)]
+    return spec
 
 
 def expected_params(s, n):
@@ -144,15 +232,31 @@ def compare(s, dump):
         if defs[k]['kind'] != 'entity':
             out.append(('definitions|extra|definition for nothing in the schema', '%s = %s' % (k, defs[k])))
     # ---- entities
-    for k, e in sorted(ent_names.items()):
+    lin = linearisations(s)
+    bad_bases = {}
+    built = dump.get('construct') or {}
+    for k, e in sorted(ent_names.items(), key=lambda ke: (depth(s, ke[1].name), ke[0])):
         d = defs.get(k)
         if d is None or d['kind'] != 'entity':
             continue
         shape = entity_shape(s, e.name)
         want_b = [E(x) for x in e.supers] or ['BaseEntityClass']
-        if d['bases'] != want_b:
+        bases_ok = True
+        if sorted(d['bases']) != sorted(want_b):
+            bases_ok = False
+            out.append(('bases|%s|direct bases are not the declared supertypes' % order_shape(s, e.name),
+                        'entity %s: class %s(%s), declared SUBTYPE OF (%s)' % (e.name, k, ', '.join(d['bases']), ', '.join(e.supers))))
+        elif d['bases'] != want_b and lin[e.name][0] == 'declared':
+            # (when Python cannot take the declared order - a supertype named before its own subtype - any order that imports is accepted)
+            bases_ok = False
             out.append(('bases|%s|direct bases differ from the declared supertype list' % order_shape(s, e.name),
                         'entity %s: class %s(%s), declared SUBTYPE OF (%s)' % (e.name, k, ', '.join(d['bases']), ', '.join(e.supers))))
+        bad_bases[e.name] = not bases_ok
+        anc = set(E(x) for x in s.ancestors(e.name))
+        got_anc = set(d.get('mro_own', [])[1:])
+        if got_anc != anc and not any(bad_bases.get(x) for x in [e.name] + s.ancestors(e.name)):
+            out.append(('mro|%s|entity classes of the method resolution order are not the declared ancestors' % shape,
+                        'entity %s: __mro__ %s, ancestors %s' % (e.name, d.get('mro'), sorted(anc))))
         full, short = expected_params(s, e.name)
         got = d.get('params')
         if got is None:
@@ -165,7 +269,8 @@ def compare(s, dump):
             if kind == 'inherited parameter repeated':
                 shp = 'an ancestor inherited along two paths' if two_paths(s, e.name) else shape
             elif kind == 'parameter order differs':
-                shp = order_shape(s, e.name)
+                # the in-place sort of a supertype list shows in the constructor of the entity and of every entity below it
+                shp = sorted_supers_above(s, e.name) or order_shape(s, e.name)
             else:
                 shp = shape
             kwn = ''
@@ -176,6 +281,17 @@ def compare(s, dump):
                         'entity %s: __init__(self, %s) but Part 21 order is (%s)' % (e.name, ', '.join(got), ', '.join(wf))))
         elif d.get('param_kinds') and d['param_kinds'] != ['POSITIONAL_OR_KEYWORD']:
             out.append(('signature|%s|parameters are not plain positional' % shape, '%s: %s' % (k, d['param_kinds'])))
+        elif k in built and gn == wf:
+            # the constructor was called with one value per inherited-then-own explicit attribute in Part 21 order
+            b = built[k]
+            if 'error' in b:
+                out.append(('construct|%s|constructor call with one value per parameter raises %s' % (shape, b['error'][0]),
+                            'entity %s: %s(%s) -> %s: %s' % (e.name, k, ', '.join(got), b['error'][0], b['error'][1])))
+            else:
+                wrong = [r for r in b['read'] if not r[1]]
+                if wrong or len(b['read']) != len(wf):
+                    out.append(('construct|%s|attribute does not read back the value given at its Part 21 position' % shape,
+                                'entity %s: %s(%s) -> read back %s' % (e.name, k, ', '.join(got), wrong or b['read'])))
     # ---- defined types
     for k, t in sorted(type_names.items()):
         d = defs.get(k)
@@ -374,7 +490,8 @@ def judge(chk, bdir, s):
             return res
         # ---- import + dump
         res['stage'] = 'import'
-        rd = run.run([sys.executable, DUMPER, s.name], cwd=sc.d, env=env, timeout=120)
+        sc.write('construct.json', json.dumps(construct_spec(s)))
+        rd = run.run([sys.executable, DUMPER, s.name, 'construct.json'], cwd=sc.d, env=env, timeout=120)
         chk.ev()
         try:
             dump = json.loads(rd.out.strip().splitlines()[-1]) if rd.out.strip() else None
@@ -400,6 +517,12 @@ def judge(chk, bdir, s):
                     sym = 'NotImplementedError'
                 elif exc == 'TypeError' and 'MRO' in msg:
                     shape = 'class statement of an entity with several supertypes'
+                    cm = re.match(r'class (\w+)\(', line.strip())
+                    who = [e.name for e in s.entities if cm and E(e.name) == cm.group(1)]
+                    if who:
+                        how = linearisations(s)[who[0]][0]
+                        # 'declared': Python can take the supertypes exactly as declared, the generator wrote another order
+                        shape = LIN_SHAPE.get(how, 'several supertypes in an order Python can take as declared')
                     sym = 'TypeError (no consistent method resolution order)'
                 else:
                     sym = exc
@@ -427,9 +550,15 @@ def cover(chk, s, res):
     if mx:
         chk.seen('matrix', *mx)       # one fixed shape of vf/c18_matrix.py whose module was imported and compared
         chk.count('matrix_%s_shapes_compared' % mx[0])
+    built = res['dump'].get('construct') or {}
     for e in s.entities:
         full, _short = expected_params(s, e.name)
         chk.seen('entity', entity_shape(s, e.name), min(len(full), 6), c18_gen.id_class(e.name))
+        b = built.get(E(e.name))
+        if b and 'read' in b and all(r[1] for r in b['read']) and len(b['read']) == len(full):
+            chk.ev()
+            chk.count('instances_constructed_and_read_back')
+            chk.seen('instance', entity_shape(s, e.name), min(len(full), 8))
         for a in e.attrs:
             if c18_gen.id_class(a.name):
                 chk.seen('attr', c18_gen.id_class(a.name), bool(s.subs(e.name)))
@@ -475,10 +604,13 @@ def main(chk):
         rule='schemas from vf/c18_gen.py (seeded: shared data-schema generator + inheritance shapes x Python-keyword/builtin identifiers in every role) '
              'plus the fixed probes of vf/c18_probes.py plus the seed-independent matrix of vf/c18_matrix.py (defined-type chains of length 1..4 over '
              'every simple type / aggregate / select / enumeration x use x declaration order x WHERE rules; entity own-attribute populations '
-             'none/explicit/DERIVE/INVERSE and combinations x position in the hierarchy; one schema per shape); each case = exp2python, py_compile, import+introspection in a subprocess; '
+             'none/explicit/DERIVE/INVERSE and combinations x position in the hierarchy; inheritance lattices: 2, 3, 4 direct supertypes in every '
+             'declaration order, unrelated / related pairwise / through chains of 2-3 levels / diamonds, bare and with attributes; one schema per shape); '
+             'each case = exp2python, py_compile, import+introspection+construction of one instance per entity in a subprocess; '
              'distinct_nontrivial = distinct (stage reached, inheritance-shape/identifier/data feature set) schemas whose generator run was judged, plus distinct '
              '(entity inheritance shape, number of constructor parameters, identifier class) / (type kind, size or base shape, identifier class) tuples '
-             'whose generated definition was compared with the schema (none of the latter while the generator dies on every entity attribute)',
+             'whose generated definition was compared with the schema (none of the latter while the generator dies on every entity attribute), plus distinct '
+             '(entity inheritance shape, number of values) instances constructed and read back',
         assumptions=['the schema model vf/model.py gives the Part 21 attribute order (ancestors depth-first in SUBTYPE OF order, each once)',
                      'python3 of the harness (%d.%d) is the interpreter the module must work with' % sys.version_info[:2],
                      'identifier escaping accepted: <id>_ for Python hard keywords and `property`; inherited<N>__ prefix on inherited parameters',
@@ -486,6 +618,11 @@ def main(chk):
                      'UNIQUE / OPTIONAL flags of aggregate types are not compared (the statement asks for the underlying type)',
                      'a defined type renaming a defined aggregate may be an equal aggregate descriptor (as a renamed enumeration / select may be an '
                      'equal enumeration / select); an aggregate OF a defined aggregate may be exposed as the nested aggregate',
+                     'where Python cannot take the declared supertype order at all (a supertype named before its own subtype) the direct bases may be '
+                     'the declared supertypes in any order that imports; in every other case the declared order is required',
+                     'instances are constructed only of non-abstract entities whose inherited and own explicit attributes all have a simple type '
+                     '(INTEGER, REAL, NUMBER, STRING, BOOLEAN) and whose constructor parameters already matched; read back = the attribute named by the '
+                     'parameter equals the value passed at that position',
                      'DERIVEd / INVERSE attributes are not judged beyond the module compiling and importing (the statement names the constructor '
                      'parameters = explicit attributes only)',
                      'randomized workload masks features %s (each exercised by a deterministic probe of an open finding)' % sorted(avoid | set('shared:' + x for x in avoid_shared))])
